@@ -138,7 +138,7 @@ def run(ctx):
         ctx.case([o["name"], o["kind"], o["sched"], i if o["kind"] == "plain" else 0], nontrivial=True,
                  sample={"program": o["name"], "schedule": o["sched"], "code": o["code"], "files": [f[0] for f in o["files"]]} if i % 211 == 3 else None)
     ctx.traces = len(obs)
-    ctx.extra["programs"] = [p[0] for p in progs]
+    ctx.extra["program_names"] = [p[0] for p in progs]
     ctx.extra["enumeration_calls_per_program"] = {progs[r["prog"]][0]: len(r["calls"]) for r in callrows}
     ctx.extra["bounded_schedules_enumerated"] = len(scheds)
     ctx.exhaustive = False
